@@ -88,6 +88,9 @@ def c13(ctx):
              "Error kind, so an error token is always rejected; the lexer turns every word with a non-letter into an Error token")
     rep.rule("C13.R5", "no-statement kinds (shared with C01.R4): every kind for which parse_statement yields 'no statement' without consuming "
              "is consumed or rejected on every iteration of every loop that re-enters statement parsing")
+    rep.rule("C13.R6", "line attribution: the number a parse error prints for a token location is the `line` of the *start* of that token's "
+             "range (a token spanning several lines lies on the line it starts on), and for a line location the stored line itself")
+    line_attribution(ctx)
     # ---- R1
     for name, exits_allowed in (("parse_block", False), ("parse_function_block", True)):
         fn = F.fn(PARSER + name)
@@ -242,3 +245,34 @@ def c13(ctx):
                    [p.rsplit("::", 2)[-2:] for p in preds], consts), sw_.loc(), how="chars().all(|c| c.is_alphabetic() || c == '\\'')")
     # ---- R5
     no_statement_rule(ctx, "C13.R5")
+
+
+
+def line_attribution(ctx):
+    F, rep = ctx.F, ctx.rep
+    fn = None
+    for f in F.all_fns(tests=False):
+        if f.kind != "closure" and f.path.endswith("::fmt") and "std::fmt::Display for frontend::parser::ParseErrorLocation" in f.path:
+            fn = f
+    if fn is None:
+        rep.fail("C13.R6", "anchor", "Display for ParseErrorLocation not found")
+        return
+    rep.analysed(fn)
+    shown = [(bi, t) for bi, t in fn.calls() if t["callee"].get("name") in ("new_display", "new_debug") and t["args"]]
+    n = 0
+    for bi, t in shown:
+        deps = kind_deep(fn, t["args"][0])
+        calls = {(callee_def(fn.term(d[1])) or "").rsplit("::", 1)[-1]: (d, p) for d, p in deps if d[0] == "call"}
+        roots = {p for d, p in deps if d == ("param", 1)}
+        n += 1
+        ok, why = True, ""
+        if "end" in calls:
+            ok, why = False, "the line printed for a token location comes from the *end* of the token's range: a multi-line token is reported on the line it ends on"
+        elif "start" not in calls or calls["start"][1][:1] != ("line",):
+            ok, why = False, "the line printed for a token location is not range.start().line (derives from %s)" % (sorted(calls) or sorted(map(str, roots)))
+        elif not any(p[:1] == ("Token.0",) and "range" in p for p in roots):
+            ok, why = False, "the position used is not the offending token's own range"
+        elif not any(p[:1] == ("Line.0",) for p in roots):
+            ok, why = False, "a line location does not print its stored line"
+        rep.ob("C13.R6", "line-shown::%d" % (n - 1), ok, why, fn.loc(t["line"]), how="Token -> range.start().line, Line -> the line")
+    rep.floor("C13.R6", n, 1, "values printed by Display for ParseErrorLocation")
